@@ -740,4 +740,95 @@ theorem canon_iso {h h' : Heap} {r r' : Ref} {c : Canon} (hc : canon h r = some 
       obtain ⟨cr, h1, h2⟩ := hab
       exact Pointwise.cons (relRef_of_rename h1 h2) ih
 
+/-! ## the round trip: evaluated check, and the fragments proved for every heap -/
+
+theorem foldl_ge (l : List Cell) : ∀ a : Nat, a ≤ l.foldl (fun a c => a + c.kids.length) a := by
+  induction l with
+  | nil => intro a; exact Nat.le_refl _
+  | cons c cs ih => intro a; exact Nat.le_trans (Nat.le_add_right _ _) (ih _)
+
+theorem visitFuel_ge (h : Heap) : 2 ≤ visitFuel h := by
+  unfold visitFuel
+  rw [← Array.foldl_toList]
+  exact foldl_ge _ _
+
+/-- the statement of the round trip for one rooted heap -/
+def Roundtrip (h : Heap) (r : Ref) : Prop :=
+  ∃ ops h' r' c, dump h r = .ok ops ∧ run ops = .ok (h', r') ∧ canon h r = some c ∧ canon h' r' = some c
+
+theorem roundtripB_iff (h : Heap) (r : Ref) : roundtripB h r = true ↔ Roundtrip h r := by
+  unfold roundtripB Roundtrip
+  constructor
+  · intro hb
+    split at hb
+    · cases hb
+    · rename_i ops hd
+      split at hb
+      · cases hb
+      · rename_i h' r' hr
+        split at hb
+        · rename_i c c' hc hc'
+          have : c = c' := by simpa using hb
+          subst this
+          exact ⟨ops, h', r', c, hd, hr, hc, hc'⟩
+        · cases hb
+  · rintro ⟨ops, h', r', c, hd, hr, hc, hc'⟩
+    simp [hd, hr, hc, hc']
+
+theorem canon_atom {h : Heap} {r : Ref} {c : Cell} (hc : h[r]? = some c) (ha : c.isAtom = true) :
+    canon h r = some ⟨.atom c.tag, []⟩ := by
+  have hf := visitFuel_ge h
+  obtain ⟨n, hn⟩ : ∃ n, visitFuel h = n + 2 := ⟨visitFuel h - 2, by omega⟩
+  simp [canon, reach, hn, visit, hc, ha, rename, mapOpt]
+
+theorem canon_leaf {h : Heap} {r : Ref} {t : Tag} (hc : h[r]? = some ⟨t, []⟩) (ha : (Cell.mk t []).isAtom = false) :
+    canon h r = some ⟨.idx 0, [(t, [])]⟩ := by
+  have hf := visitFuel_ge h
+  obtain ⟨n, hn⟩ : ∃ n, visitFuel h = n + 2 := ⟨visitFuel h - 2, by omega⟩
+  simp [canon, reach, hn, visit, hc, ha, rename, mapOpt, indexOf?, canonCell]
+
+
+/-- round trip of an atomic root (`None`, a bool, an int, a float, the empty tuple), in any heap -/
+theorem roundtrip_atom {h : Heap} {r : Ref} {c : Cell} (hc : h[r]? = some c) (ha : c.isAtom = true) : Roundtrip h r := by
+  obtain ⟨t, ks⟩ := c
+  have hcan := canon_atom hc ha
+  cases t <;> simp [Cell.isAtom] at ha
+  case none =>
+    refine ⟨[.none, .stop], #[⟨.none, []⟩], 0, _, ?_, ?_, hcan, canon_atom (c := ⟨.none, []⟩) (by simp) rfl⟩
+    · simp [dump, dumpWith, dumpFuel, save, hc, atomOp?, bind, Except.bind, pure, Except.pure]
+    · simp [run, runWith, runOps, VM.step, VM.alloc, VM.topRef, bind, Except.bind, pure, Except.pure]
+  case bool b =>
+    cases b
+    · refine ⟨[.newfalse, .stop], #[⟨.bool false, []⟩], 0, _, ?_, ?_, hcan, canon_atom (c := ⟨.bool false, []⟩) (by simp) rfl⟩
+      · simp [dump, dumpWith, dumpFuel, save, hc, atomOp?, bind, Except.bind, pure, Except.pure]
+      · simp [run, runWith, runOps, VM.step, VM.alloc, VM.topRef, bind, Except.bind, pure, Except.pure]
+    · refine ⟨[.newtrue, .stop], #[⟨.bool true, []⟩], 0, _, ?_, ?_, hcan, canon_atom (c := ⟨.bool true, []⟩) (by simp) rfl⟩
+      · simp [dump, dumpWith, dumpFuel, save, hc, atomOp?, bind, Except.bind, pure, Except.pure]
+      · simp [run, runWith, runOps, VM.step, VM.alloc, VM.topRef, bind, Except.bind, pure, Except.pure]
+  case int z =>
+    refine ⟨[.int z, .stop], #[⟨.int z, []⟩], 0, _, ?_, ?_, hcan, canon_atom (c := ⟨.int z, []⟩) (by simp) rfl⟩
+    · simp [dump, dumpWith, dumpFuel, save, hc, atomOp?, bind, Except.bind, pure, Except.pure]
+    · simp [run, runWith, runOps, VM.step, VM.alloc, VM.topRef, bind, Except.bind, pure, Except.pure]
+  case float b =>
+    refine ⟨[.float b, .stop], #[⟨.float b, []⟩], 0, _, ?_, ?_, hcan, canon_atom (c := ⟨.float b, []⟩) (by simp) rfl⟩
+    · simp [dump, dumpWith, dumpFuel, save, hc, atomOp?, bind, Except.bind, pure, Except.pure]
+    · simp [run, runWith, runOps, VM.step, VM.alloc, VM.topRef, bind, Except.bind, pure, Except.pure]
+  case tuple =>
+    subst ha
+    refine ⟨[.emptyTuple, .stop], #[⟨.tuple, []⟩], 0, _, ?_, ?_, hcan, canon_atom (c := ⟨.tuple, []⟩) (by simp) rfl⟩
+    · simp [dump, dumpWith, dumpFuel, save, hc, atomOp?, bind, Except.bind, pure, Except.pure]
+    · simp [run, runWith, runOps, VM.step, VM.alloc, VM.topRef, bind, Except.bind, pure, Except.pure]
+
+/-- round trip of a string root, in any heap -/
+theorem roundtrip_str {h : Heap} {r : Ref} {s : String} (hc : h[r]? = some ⟨.str s, []⟩) : Roundtrip h r := by
+  refine ⟨[.str s, .memoize, .stop], #[⟨.str s, []⟩], 0, _, ?_, ?_, canon_leaf hc rfl, canon_leaf (by simp) rfl⟩
+  · simp [dump, dumpWith, dumpFuel, save, hc, atomOp?, memoIdx, indexOf?, bind, Except.bind, pure, Except.pure]
+  · simp [run, runWith, runOps, VM.step, VM.alloc, VM.topRef, bind, Except.bind, pure, Except.pure]
+
+/-- round trip of a bytes root, in any heap -/
+theorem roundtrip_bytes {h : Heap} {r : Ref} {s : String} (hc : h[r]? = some ⟨.bytes s, []⟩) : Roundtrip h r := by
+  refine ⟨[.bytes s, .memoize, .stop], #[⟨.bytes s, []⟩], 0, _, ?_, ?_, canon_leaf hc rfl, canon_leaf (by simp) rfl⟩
+  · simp [dump, dumpWith, dumpFuel, save, hc, atomOp?, memoIdx, indexOf?, bind, Except.bind, pure, Except.pure]
+  · simp [run, runWith, runOps, VM.step, VM.alloc, VM.topRef, bind, Except.bind, pure, Except.pure]
+
 end Pepper.Pickle
